@@ -51,7 +51,7 @@ def BOUNDS(tier):
 
 def REQUIRED_COVER(tier):
     return {'dag:shape', 'dag:family:kchain2', 'dag:family:kchain4', 'dag:family:ladder', 'dag:family:diamond', 'dag:family:dense',
-            'boc:header', 'boc:header2', 'boc:descriptor', 'boc:refidx', 'dict:label', 'dict:tower', 'tl:word', 'tl:tower'}
+            'boc:header', 'boc:header2', 'boc:descriptor', 'boc:refidx', 'dict:label', 'dict:tower', 'dict:shared', 'tl:word', 'tl:tower'}
 
 
 FIELD_VALUES = [0, 1, 2, 255, 256, 65535, 1 << 24, 1 << 31, (1 << 32) - 1]
@@ -563,6 +563,37 @@ def case_dict(rec, i):
                length, 'case_dict', args, 'dict:aug')
 
 
+def case_dict_shared(rec, d, dead=None):
+    """a VALID dictionary whose fork cells reference one and the same child twice: d + 1 cells, 2^d entries.  The bag is a few bytes per level;
+    the parsers return every entry, so their work is the size of the denoted map, not of the input"""
+    from pytoniq_core.boc import Cell
+    from pytoniq_core.boc.hashmap import HashMap
+    from pytoniq_core.boc.hashmap.parse import parse_hashmap
+    c = RC.RCell('00' + '00000111')
+    for _ in range(d):
+        c = RC.RCell('00', (c, c))
+    data = RB.encode([c])
+    args = {'d': d}
+    rec.state(('dict-shared', d))
+    rec.nontriv(('dict-shared', d))
+    for name, thunk in (('parse_hashmap', lambda: len(parse_hashmap(Cell.one_from_boc(data).begin_parse(), d))),
+                        ('load_dict', lambda: len(to_lib(RC.RCell('1', (c,))).begin_parse().load_dict(d, None, None) or {}))):
+        key = f'dict:shared-forks:{name}'
+        if dead is not None and key in dead:
+            continue
+        before = len(rec.violations)
+        run_parser(rec, 'dict:shared', f'dictionary of {d} fork levels sharing one child per level ({d + 1} cells, 2^{d} entries), {name}', thunk, len(data), 'case_dict_shared', args, key)
+        if dead is not None and len(rec.violations) > before:
+            dead.add(key)
+
+
+def shard_dict_shared(rec):
+    dead = set()
+    for d in range(1, 17):
+        case_dict_shared(rec, d, dead)
+    rec.sample({'dictionary': '12 fork cells, each referencing the same child twice: 4096 entries in a 70-byte bag', 'budget': 'parser budget of the bag length'})
+
+
 # ------------------------------------------------------------------------------------------ (c)
 def shard_tl(rec, part, parts):
     from . import c19tl
@@ -585,6 +616,10 @@ def selftest():
 
 
 def shards(tier, seed):
+    return _shards(tier, seed) + [{'fn': 'shard_dict_shared', 'args': {}, 'prio': 1}]
+
+
+def _shards(tier, seed):
     out = []
     for n in (1, 2, 3):
         out.append({'fn': 'shard_shapes', 'args': {'n': n, 'part': 0, 'parts': 1}})
